@@ -16,7 +16,7 @@
     Neither is a behavioural difference (frt.Destr is frt.Destr2; the temporaries are bound and used locally).
 
     [tiny_subset]: the constructs tinyfo's parser accepts (parser.go): no [fun] and no inner functions, no
-    string match, no interpolation, no block expression, no [*], pairs only, non-empty slice literals, field
+    string match, no interpolation, no block expression, no [*] and no [/], pairs only, non-empty slice literals, field
     access only on a variable (or a chain x.a.b). *)
 From Coq Require Import List ZArith String Ascii Bool Lia.
 From FoVerif Require Import Core.Common Core.Lib Core.MiniFo Core.MiniGo Core.Compile.
@@ -71,7 +71,7 @@ Inductive tinye : expr -> Prop :=
 | T_bool b : tinye (EBool b)
 | T_unit : tinye EUnit
 | T_var x : tinye (EVar x)
-| T_bin op a b : op <> OMul -> tinye a -> tinye b -> tinye (EBin op a b)
+| T_bin op a b : op <> OMul -> op <> ODiv -> tinye a -> tinye b -> tinye (EBin op a b)
 | T_eq neg a b : tinye a -> tinye b -> tinye (EEq neg a b)
 | T_not a : tinye a -> tinye (ENot a)
 | T_if c bt bf : tinye c -> tinyb bt -> tinyb bf -> tinye (EIf c bt bf)
@@ -108,7 +108,7 @@ Fixpoint tinye_b (n:nat) (e:expr) {struct n} : bool :=
   match n with O => false | S n =>
   match e with
   | EInt _ | EStr _ | EBool _ | EUnit | EVar _ => true
-  | EBin op a b => match op with OMul => false | _ => tinye_b n a && tinye_b n b end
+  | EBin op a b => match op with OMul | ODiv => false | _ => tinye_b n a && tinye_b n b end
   | EEq _ a b => tinye_b n a && tinye_b n b
   | ENot a => tinye_b n a
   | EIf c bt bf => tinye_b n c && tinyb_b n bt && tinyb_b n bf
